@@ -4,7 +4,7 @@ The behavioural statement needs the kernel's ground truth: not decided.  Claimed
 are necessary structural clauses (DESIGN §3 C02).
 """
 import re
-from ..core import (AnalysisBroken, Inliner, canon, strip, last_member, must_pass, relpath, norm_cond, walk, forward)
+from ..core import (names_of, same_value, AnalysisBroken, Inliner, canon, strip, last_member, must_pass, relpath, norm_cond, walk, forward)
 from ..analyses import (is_call, holding, path_to, describe, exits_of, callback_kind, loops, innermost_loop,
                         delta_analysis, is_fail, must_pass_from_block)
 from .. import interp
@@ -219,7 +219,7 @@ def tables(ctx):
             A = hd.get((e['_b'], e['_i']), frozenset())
             masks = []
             for a in A:
-                m = re.match(r'^\((\w+) & (\d+)\)$', a[1])
+                m = re.match(r'^\((.+) & (\d+)\)$', a[1])
                 if m and a[0] == '!=' and a[2] == '0':
                     masks.append(int(m.group(2)))
             n += 1
